@@ -308,19 +308,43 @@ def edgesOf (g : Graph) : List (Nat × Nat) :=
 def hasCycle (g : Graph) : Bool :=
   (List.range g.n).any fun u => (closeN g [] g.n (addNew [] (succs g [] u))).contains u
 
+mutual
+/-- `Network.get_all_recycles()`: the recycles of the network and of all nested sub-networks -/
+def allRecycles : Item → List Nat
+  | .unit _ => []
+  | .net p r => r ++ allRecyclesList p
+def allRecyclesList : List Item → List Nat
+  | [] => []
+  | i :: is => allRecycles i ++ allRecyclesList is
+end
+
+/-- no unit is in its own (exactly computed) downstream set once the streams `ends` are cut -/
+def acyclicB (g : Graph) (ends : List Nat) : Bool :=
+  (List.range g.outs.length).all fun u =>
+    match downstreamOf g ends [u] with
+    | .ok S => !S.contains u
+    | .error _ => false
+
+/-- `a` is (computed to be) downstream of `b`; a `true` answer exhibits a real chain of streams -/
+def reachesB (g : Graph) (b a : Nat) : Bool :=
+  (closeN g [] g.n (addNew [] (succs g [] b))).contains a
+
 inductive Verdict where
   | valid
   | units          -- the path's unit set differs from the given units
-  | dup            -- acyclic: a unit appears twice
+  | dup            -- a unit appears twice
+  | recycleSet     -- the reported recycles are not the recycles carried by the (sub-)networks
   | order          -- acyclic: a unit precedes a unit that feeds it
   | recycleOnDag   -- acyclic: a recycle is reported
   | noRecycle      -- cyclic: no recycle is reported
-  | backward       -- cyclic: a stream against the path order is not inside a common recycle loop
+  | notCut         -- cyclic: a cycle survives the removal of the reported recycle streams
+  | backward       -- cyclic: a stream against the path order is not on a cycle inside a common recycle loop
   deriving Repr, DecidableEq
 
 def Verdict.toString : Verdict → String
-  | .valid => "valid" | .units => "units" | .dup => "dup" | .order => "order"
-  | .recycleOnDag => "recycle-on-dag" | .noRecycle => "no-recycle" | .backward => "backward"
+  | .valid => "valid" | .units => "units" | .dup => "dup" | .recycleSet => "recycle-set" | .order => "order"
+  | .recycleOnDag => "recycle-on-dag" | .noRecycle => "no-recycle" | .notCut => "recycles-do-not-cut"
+  | .backward => "backward"
 
 def nodupB : List Nat → Bool
   | [] => true
@@ -329,20 +353,41 @@ def nodupB : List Nat → Bool
 def checkNetwork (g : Graph) (p : Item) (R : List Nat) : Verdict :=
   let flat := p.flat
   if !(flat.all (· < g.n) && (List.range g.n).all flat.contains) then .units
+  else if !nodupB flat then .dup
+  else if !(R.all (allRecycles p).contains && (allRecycles p).all R.contains) then .recycleSet
   else
     let pos := fun u => flat.idxOf u
     let es := edgesOf g
     if hasCycle g then
       if R.isEmpty then .noRecycle
+      else if !acyclicB g R then .notCut
       else
         let lp := p.loops
-        if es.all (fun (a, b) => pos a < pos b || lp.any (fun l => l.contains a && l.contains b))
+        if es.all (fun (a, b) => pos a < pos b ||
+            (reachesB g b a && lp.any (fun l => l.contains a && l.contains b)))
         then .valid else .backward
     else
-      if !nodupB flat then .dup
-      else if !es.all (fun (a, b) => pos a < pos b) then .order
+      if !es.all (fun (a, b) => pos a < pos b) then .order
       else if !R.isEmpty then .recycleOnDag
       else .valid
+
+/-- every clause of the checker that fails, each judged on its own (so that one failure cannot hide
+another); empty exactly when `checkNetwork` says `valid` -/
+def failingClauses (g : Graph) (p : Item) (R : List Nat) : List Verdict :=
+  let flat := p.flat
+  if !(flat.all (· < g.n) && (List.range g.n).all flat.contains) then [.units]
+  else
+    let pos := fun u => flat.idxOf u
+    let es := edgesOf g
+    (if !nodupB flat then [.dup] else []) ++
+    (if !(R.all (allRecycles p).contains && (allRecycles p).all R.contains) then [.recycleSet] else []) ++
+    (if hasCycle g then
+      (if R.isEmpty then [.noRecycle] else if !acyclicB g R then [.notCut] else []) ++
+      (if es.all (fun (a, b) => pos a < pos b ||
+            (reachesB g b a && p.loops.any (fun l => l.contains a && l.contains b))) then [] else [.backward])
+    else
+      (if !es.all (fun (a, b) => pos a < pos b) then [.order] else []) ++
+      (if !R.isEmpty then [.recycleOnDag] else []))
 
 def validNetwork (g : Graph) (p : Item) (R : List Nat) : Bool := checkNetwork g p R == .valid
 
